@@ -10,7 +10,8 @@ This module evaluates each entry's inlined IR - IEEE point semantics implemented
 at a fixed list of stored-coordinate points in which at least one coordinate group sits at a singular value, and
 compares with `tables/singular.json`, frozen from the pinned tree and reviewed.  A value that was finite and is now
 NaN/inf, or finite and different, or whose infinity changed sign, is reported; a frozen NaN that became finite is
-not (an improvement cannot break a user relying on the old value being meaningful).
+not (an improvement cannot break a user relying on the old value being meaningful); values beyond 1e12 (float poles such as
+1/tan(pi)) and infinities are one category, compared by sign only.
 """
 from __future__ import annotations
 
@@ -261,9 +262,11 @@ def compare(frozen_row, now_row):
             x, y = _dec(a), _dec(b)
             if x != x:
                 continue  # a frozen NaN that became something else is not a broken convention
-            if y != y or (abs(x) == INF) != (abs(y) == INF) or (abs(x) == INF and x != y):
+            # values beyond 1e12 come from a float pole (1/tan(pi)): only "unbounded, with this sign" is a convention
+            ux, uy = abs(x) > 1e12, (y == y and abs(y) > 1e12)
+            if y != y or ux != uy or (ux and (x > 0) != (y > 0)):
                 bad.append((pk, i, a, b))
-            elif abs(x) != INF and abs(x - y) > 1e-9 * (1 + abs(x)):
+            elif not ux and abs(x - y) > 1e-9 * (1 + abs(x)):
                 bad.append((pk, i, a, b))
     return bad
 
